@@ -34,14 +34,30 @@ CLAIMED["C18"] = ("prober",
     "Trusted: Coq kernel, Flocq 4.1.0, extraction, driver, harnesses. The floating-point theorems depend on the standard library's axioms ClassicalDedekindReals.sig_not_dec, sig_forall_dec, FunctionalExtensionality.functional_extensionality_dep, Classical_Prop.classic (via Flocq/Reals). strconv.ParseInt, the two regexps, %s formatting are modelled and compared on every case; SHA-256 is executable in Coq, compared with crypto/sha256, abstract in the theorem; main() glue between validateFlags and the URI/interval use is replicated in the harness; int64(float64) as on amd64.",
     "DESIGN.md 4 C18")
 
+POOL_NOTE = ("Trusted: Coq kernel, extraction+OCaml driver, the Go harness (fake ClientConn refusing empty address lists like gRPC 1.56.3, virtual clock via the time.Now()->verifNow() overlay rewrite, goroutine-state classification of blocked picks, yield gate). "
+             "The theorem is about the model (ops incl. the two critical sections of a growing Pick); the tie to the code is white-box differential correspondence on sampled histories. Go map iteration is an oracle (any permutation). ")
+CLAIMED["C02"] = ("pool", "Theorem C02_holds (monitor P02 true on every model history and oracle: a load-routed call is placed on a slot of the picker's READY snapshot with minimal stream count; stream count = number of placed, uncompleted calls, across refreshes) + invariants Inv/Sim preserved by every step; correspondence as for all pool properties.",
+                  POOL_NOTE + "Guard: fewer than 2^31 outstanding picks (int32 stream counter). Minimality is for serialized operations.", "DESIGN.md 4 C02")
+CLAIMED["C04"] = ("pool", "Theorem C04_holds (last published state = census of the pool's connections, error picker iff TRANSIENT_FAILURE, snapshot = READY slots, publication on every READY-ness/TF change) over all histories of adversarial state reports.",
+                  POOL_NOTE + "Guard: fewer than 2^64 pool connections (uint64 counters).", "DESIGN.md 4 C04")
+CLAIMED["C05"] = ("pool", "Theorems C05_no_panic (no model event returns RPanic: every partial Go operation mirrored in the model is unreachable) and C05_holds; key extraction totality is C11, the stream wrapper's is C12.",
+                  POOL_NOTE + "Guard of C05_holds only: connection numbers below 9*10^8 (an encoding bound of the monitor). nil context.Context is outside the model.", "DESIGN.md 4 C05")
+CLAIMED["C06"] = ("pool", "Theorems C06_holds/C06_no_stuck (no operation is stuck, gb.mu free after every operation, only a round-robin BIND waits and only while its channel is not READY and its context alive) + for interleavings the Coq theorems C06_table_no_wait_cycle/… instantiated by vm_compute on the lock table REGENERATED from the source on every run (no self-acquire, no blocking while holding a lock, acyclic lock order).",
+                  POOL_NOTE + "Partial for interleavings: the lock-table translator (tools/lockfacts) is trusted; scheduler/RWMutex fairness and the 100 ms ticker are outside the model.", "DESIGN.md 4 C06")
+CLAIMED["C20"] = ("pool", "Theorem C20_holds, unguarded: after every event every pool connection and every replacement of a refresh in flight was last given the current address list and asked to connect; resolver errors change nothing. (Its failed first proof attempt produced the counterexample fixed by be2386d.)",
+                  POOL_NOTE, "DESIGN.md 4 C20")
+CLAIMED["C10"] = ("locks", "Generic lockset theorem C10_lockset_race_free / C10_table_race_free (Locks/DRF.v: every access follows its field's policy => no race in any consistent execution under the usage contract) instantiated by vm_compute on the access/acquire/block table REGENERATED from the five source files on every run by tools/lockfacts (flow-sensitive must/may-held lock sets, call-graph propagation); failing rows are confirmed with a -race stress harness as failing-input search.",
+                  "PARTIAL: the translator and the hand-written Locks/Policy.v are trusted; publication arguments rest on pool invariants; aliasing through interfaces/closures beyond the handled cases, fields of foreign types and happens-before via channels are not seen. The race detector is only the search for a failing input, never the verdict.", "DESIGN.md 4 C10")
+CLAIMED["C12"] = ("stream", "unary_transparent for every invoker; for the stream wrapper a verified closed-set checker (Stream/ClosedSet.v, Check.v: check_prog p = true => every run of p, every interleaving/creation outcome/cancellation point, unbounded calls, satisfies the C12 monitor: single creation, first message visible, recv waits then delegates or returns error/ctx end, in-order delegation, no panic, mutex discipline, no lost wake-up, termination) instantiated by vm_compute on the instruction lists REGENERATED from gcp_interceptor.go by tools/streamir on every run; schedule-directed differential testing forces model-enumerated interleavings on the real wrapper.",
+                  "PARTIAL tie: streamir (translation, yield placement) and the Sem.v model of sync.Mutex/sync.Cond/goroutines/context are trusted; real scheduler behaviour is sampled via forced schedules; one sender and one receiver (gRPC's contract).", "DESIGN.md 4 C12")
+CLAIMED["C15"] = ("gme", "Theorems C15_holds, route_spec, update_pools, update_status_synced, route_total (uses ME cur_member), follows_connectivity over all histories of the Gallina model of GCPMultiEndpoint (reusing the ME model for each MultiEndpoint); differential correspondence with real grpc.ClientConn pools over bufconn.",
+                  "Trusted: kernel, extraction, driver, harness. PARTIAL: real connectivity timing ('within bounded time': 3 s polling) and the goroutine census are sampled runtime observations; harness uses recovery = delay = 0 (timers of the other package cannot be replaced), the theorems cover all values.", "DESIGN.md 4 C15")
+CLAIMED["C16"] = ("gme", "Theorems C16_holds, update_error_cases, failed_update_identity (in every state), no_route_to_closed_pool, close_releases_all, failed_new_releases_all over all histories incl. every kind of invalid option at every position and dial failures at any dial.",
+                  "As C15. PARTIAL: goroutines are a census in the model; the harness compares it with runtime stacks (sampled).", "DESIGN.md 4 C16")
+
 PLANNED = {
-    "C01": "pool engine built (model, monitor, correspondence, fix commits); registered once Props_C01.v carries its theorem",
-    "C02": "as C01", "C03": "as C01", "C04": "as C01", "C05": "as C01", "C06": "as C01", "C07": "as C01",
-    "C08": "as C01", "C09": "as C01", "C20": "as C01",
-    "C10": "lock-facts translator + DRF theorem under construction",
-    "C12": "stream semantics + IR translator under construction",
-    "C15": "GME engine under construction", "C16": "GME engine under construction",
-    "C18": "prober engine under construction",
+    "C01": "pool engine built (model, monitor, correspondence, fix commits; the check runs and catches seeded changes); registered once Props_C01.v carries its theorem",
+    "C03": "as C01", "C07": "as C01", "C08": "as C01", "C09": "as C01",
 }
 
 ENGINES = [
@@ -53,6 +69,9 @@ ENGINES = [
     {"name": "keys", "path": "coq/Keys, harness/keys, ocaml/keys", "serves_properties": ["C11"], "kind_free_text": "model of reflect-based key extraction"},
     {"name": "codec", "path": "coq/Codec, harness/codec, ocaml/codec", "serves_properties": ["C19"], "kind_free_text": "CRC32C + protobuf wire model"},
     {"name": "config", "path": "coq/Config, harness/config, ocaml/config", "serves_properties": ["C17"], "kind_free_text": "ApiConfig/JSON model, protojson modelled"},
+    {"name": "gme", "path": "coq/GME, harness/gme, ocaml/gme", "serves_properties": ["C15", "C16"], "kind_free_text": "model of GCPMultiEndpoint on top of the ME model; real ClientConns over bufconn"},
+    {"name": "stream", "path": "coq/Stream, tools/streamir, harness/stream, ocaml/stream", "serves_properties": ["C12"], "kind_free_text": "small-step semantics of the stream wrapper, IR regenerated from source, verified closed-set checker, forced schedules"},
+    {"name": "locks", "path": "coq/Locks, tools/lockfacts, harness/locks_*", "serves_properties": ["C10", "C06"], "kind_free_text": "lock/access table regenerated from source, generic DRF and deadlock theorems, -race stress as failing-input search"},
     {"name": "prober", "path": "coq/Prober, harness/prober, harness/prober_main, ocaml/prober", "serves_properties": ["C18"], "kind_free_text": "Flocq binary64 / int64 models of the spanner prober helpers"},
 ]
 
